@@ -17,6 +17,7 @@ func c14(c *Ctx) {
 	defer c14superiors(c)
 	defer c14inferiors(c)
 	defer c14remoteDeleteClearsSubscription(c)
+	defer c14prefixGuardsNotTooStrict(c)
 	P, R := c.P, c.R
 	R.Explain("R14.1", "pattern injection (T-SOURCE): every operand of regexp.Compile/MustCompile in the server packages is built only from constants and regexp.QuoteMeta results (string concatenation, fmt.Sprintf, strings.ReplaceAll of such parts); a raw configuration or client string in a pattern can make MustCompile panic or change the match.")
 	R.Explain("R14.2", "protection guards (T-DOM): handleCreate/handleDelete refuse INBOX (case-insensitively) before calling the state; the recovery mailbox guards of R20.3.")
@@ -456,4 +457,63 @@ func c14remoteDeleteClearsSubscription(c *Ctx) {
 		}
 	}
 	R.Min("R14.8", "mailbox deletions in applyMailboxDeleted", n, 1)
+}
+
+// c14prefixGuardsNotTooStrict (R14.9): a prefix test covers the name that consists of the prefix alone.
+func c14prefixGuardsNotTooStrict(c *Ctx) {
+	P, R := c.P, c.R
+	R.Explain("R14.9", "INBOX is case-insensitive also as `inbox/`: wherever the name-handling code (internal/session, internal/state) compares a prefix x[:k] of a mailbox name with strings.EqualFold / HasPrefix-style tests, the conditions dominating the slice do not entail len(x) >= k+1 - the guard a prefix slice needs is len(x) >= k; a strict guard silently excludes the name that is exactly the prefix (`inbox/` is then not canonicalised to `INBOX/`, and CREATE makes a second `inbox`).")
+	n := 0
+	for _, f := range c.funcsInPkg("internal/session", "internal/state") {
+		for _, b := range f.Blocks {
+			for _, in := range b.Instrs {
+				sl, ok := in.(*ssa.Slice)
+				if !ok || sl.High == nil || !isStringType(sl.X.Type()) {
+					continue
+				}
+				if sl.Low != nil {
+					if k, isK := sl.Low.(*ssa.Const); !isK || k.Int64() != 0 {
+						continue
+					}
+				}
+				// used by a case-insensitive / prefix comparison
+				cmp := false
+				if sl.Referrers() != nil {
+					for _, r := range *sl.Referrers() {
+						if call, ok := r.(*ssa.Call); ok && call.Call.StaticCallee() != nil && engine.PkgPathOf(call.Call.StaticCallee()) == "strings" {
+							switch call.Call.StaticCallee().Name() {
+							case "EqualFold", "HasPrefix", "ToLower", "ToUpper":
+								cmp = true
+							}
+						}
+						if bo, ok := r.(*ssa.BinOp); ok && (bo.Op == token.EQL || bo.Op == token.NEQ) {
+							cmp = true
+						}
+					}
+				}
+				if !cmp {
+					continue
+				}
+				n++
+				// facts entail High + 1 <= len(X) ?
+				env := &engine.LinEnv{Fn: f, PathVersion: engine.PathVersions(f)}
+				hi := env.Lin(sl.High).AddScaled(engine.NewLin(1), 1)
+				var lenX engine.Lin
+				found := false
+				for _, bb := range f.Blocks {
+					for _, i2 := range bb.Instrs {
+						if call, ok := i2.(*ssa.Call); ok {
+							if bi, ok := call.Call.Value.(*ssa.Builtin); ok && bi.Name() == "len" && call.Call.Args[0] == sl.X {
+								lenX = env.Lin(call)
+								found = true
+							}
+						}
+					}
+				}
+				tooStrict := found && engine.Entails(env.FactsAt(b), hi, lenX)
+				R.Check(!tooStrict, "R14.9", c.name(f)+"|prefix "+valExpr(sl.X, 0)+"[:"+valExpr(sl.High, 0)+"]", P.Pos(sl.Pos()), "the guard admits len == prefix length", "the prefix test is guarded by a condition that requires the name to be longer than the prefix: the name that consists of the prefix alone (e.g. `inbox/`) is not recognised")
+			}
+		}
+	}
+	R.Stats["R14.9 prefix slices compared"] = n
 }
